@@ -1725,3 +1725,13 @@ def r12_10(rep):
         if not fs and it.checked:
             rep.ok("arith-ok:%s" % b.path.split("::")[-1])
     rep.check(True, "functions-analysed:%d" % len(targets), "%d arithmetic sites checked" % n)
+
+
+@RULES.rule("R12.11", "an edition the target does not support is rejected: edition table and validation (shared with C14 R14.1/R14.4)", floor=20)
+def r12_11(rep):
+    """C12 promises `UnsupportedEdition` for an unsupported edition/target pair.  The check is `!edition.is_available(target)` in
+    Builder::generate; it is only as good as the edition table (`Edition2024 => 85`): lowering the row to 82 makes
+    `--rust-target 1.84 --rust-edition 2024` generate bindings instead of returning the error."""
+    import c14
+    c14.r14_1(rep)
+    c14.r14_4(rep)
